@@ -79,3 +79,111 @@ def productions(fn):
 
 def target_names(t):
   return [x.id for x in ast.walk(t) if isinstance(x, ast.Name)] if t is not None else []
+
+
+# ---------------------------------------------------------------------------
+# stores into trees a function was handed
+
+
+MUTATORS = {'append', 'extend', 'insert', 'pop', 'remove', 'clear', 'update',
+            'setdefault', 'sort', 'reverse', 'popitem', 'add', 'discard'}
+SHALLOW = {'dict', 'list', 'tuple', 'set', 'sorted', 'reversed', 'copy', 'items',
+           'values', 'keys', 'get', 'enumerate', 'zip', 'filter', 'map', 'iter', 'next'}
+
+
+def stores_into_arguments(fn, params):
+  """[(node, text)] places where the function writes into an object it was
+  handed (or into anything reachable from it): x[k] = v, del x[k], x.append(..)
+  where x is a parameter, part of one, or an element obtained by iterating one.
+  Levels: 0 = the very object is shared with the caller; 1 = a fresh container
+  (dict(p), list(p), a comprehension over p, p.copy()) whose ELEMENTS are
+  shared - storing into the container itself is fine, into x[k][j] is not.
+  copy.deepcopy(..) gives an unshared object."""
+  level = {p: 0 for p in params}
+
+  def lvl(e):
+    """sharing level of the value of e: 0, 1 or None (not shared)."""
+    if isinstance(e, ast.Name):
+      return level.get(e.id)
+    if isinstance(e, (ast.Subscript, ast.Attribute)):
+      b = lvl(e.value)
+      return 0 if b is not None else None
+    if isinstance(e, ast.Call):
+      t = call_tail(e)
+      if t == 'deepcopy':
+        return None
+      args = list(e.args)
+      if isinstance(e.func, ast.Attribute):
+        args.append(e.func.value)
+      if t in SHALLOW and any(lvl(a) is not None for a in args):
+        return 1
+      return None
+    if isinstance(e, (ast.ListComp, ast.SetComp, ast.GeneratorExp, ast.DictComp)):
+      if any(lvl(g.iter) is not None for g in e.generators):
+        return 1
+      return None
+    if isinstance(e, (ast.List, ast.Tuple, ast.Set)):
+      return 1 if any(lvl(x) is not None for x in e.elts) else None
+    if isinstance(e, ast.Dict):
+      return 1 if any(lvl(x) is not None for x in e.values if x is not None) else None
+    if isinstance(e, ast.IfExp):
+      ls = [lvl(e.body), lvl(e.orelse)]
+      ls = [x for x in ls if x is not None]
+      return min(ls) if ls else None
+    if isinstance(e, ast.BoolOp):
+      ls = [lvl(v) for v in e.values]
+      ls = [x for x in ls if x is not None]
+      return min(ls) if ls else None
+    return None
+  nodes = list(walk_local(fn))
+  changed = True
+  rounds = 0
+  while changed and rounds < 10:
+    changed = False
+    rounds += 1
+    for x in nodes:
+      pairs = []
+      if isinstance(x, ast.Assign):
+        for t in x.targets:
+          pairs.append((t, x.value, False))
+      elif isinstance(x, (ast.For, ast.comprehension)):
+        pairs.append((x.target, x.iter, True))
+      elif isinstance(x, ast.NamedExpr):
+        pairs.append((x.target, x.value, False))
+      for t, v, element in pairs:
+        l = lvl(v)
+        if l is None:
+          continue
+        if element:
+          l = 0                      # elements of a shared or shallow container are shared
+        for n in ast.walk(t):
+          if isinstance(n, ast.Name) and isinstance(n.ctx, ast.Store):
+            # tuple unpacking of a shared value gives shared parts
+            nl = 0 if isinstance(t, (ast.Tuple, ast.List)) else l
+            if level.get(n.id, 9) > nl:
+              level[n.id] = nl
+              changed = True
+  bad = []
+  for x in nodes:
+    tg = []
+    if isinstance(x, ast.Assign):
+      tg = x.targets
+    elif isinstance(x, ast.AugAssign):
+      tg = [x.target]
+    elif isinstance(x, ast.Delete):
+      tg = x.targets
+    for t in tg:
+      for s in ([t] if not isinstance(t, (ast.Tuple, ast.List)) else t.elts):
+        if isinstance(s, (ast.Subscript, ast.Attribute)) and lvl(s.value) == 0:
+          bad.append((x, _text(s)))
+    if isinstance(x, ast.Call) and isinstance(x.func, ast.Attribute) and \
+        x.func.attr in MUTATORS and lvl(x.func.value) == 0:
+      bad.append((x, _text(x.func)))
+  return bad
+
+
+def _text(e):
+  try:
+    return ast.unparse(e)[:60]
+  except Exception:
+    return '?'
